@@ -13,7 +13,7 @@ DESIGN_REF = "DESIGN.md section 4 / C09"
 CHUNK = 1
 RULE = ("same complete enumeration as C08 (n<=3: box letter x position x gradient letter "
         "x memory contents; tilings to n=10; inputs intercepted at "
-        "lbfgsb.main.subspace_minimization during real runs); the real routine is fed the "
+        "lbfgsb.main.subspace_minimization during real runs), plus 'twin' inputs: two identical variables whose bound - translated to {0, 0.003, -0.007, 1e-9} - lies at 5 fractions of the way from the Cauchy point to the Newton point (exact ties in the ratio test); the real routine is fed the "
         "*reference* Cauchy point and its c so that a Cauchy defect cannot mask or cause a "
         "verdict here; oracle: active variables unchanged exactly, free part equals the "
         "box-truncated Newton point of the dense model (1e-8), model not increased, "
@@ -33,6 +33,7 @@ def cases(tier, variants):
         yield from comp.syn_batches((1, 2), variants_syn)
         yield from comp.syn_batches((3,), variants, third=1)
         yield from comp.tiled_batches((5, 8), variants)
+        yield from twin_cases(variants_syn)
         yield from F.convex_cases(2, variants, (1, 3), fams=("qp", "soft"),
                                   hesses=("rot2",), extra=dict(part="icp"))
         # all-boxed n=3 problems: iterations in which one variable reaches a bound while
@@ -45,9 +46,57 @@ def cases(tier, variants):
                                   extra=dict(part="icp"))
         yield from comp.syn_batches((1, 2, 3), variants)
         yield from comp.tiled_batches((4, 5, 6, 7, 8, 9, 10), variants)
+        yield from twin_cases(variants)
         yield from F.convex_cases(2, variants, (1, 3, 10), extra=dict(part="icp"))
         yield from F.convex_cases(3, variants[:1], (2,), fams=("quart",),
                                   hesses=("rot4",), extra=dict(part="icp"))
+
+
+TW_A, TW_B, TW_T = (0.7, 1.9), (1.1, 2.6), (0.8, 1.6)
+TW_STEPS = [[(-0.21, 0.13)], [(0.17, -0.08), (-0.26, 0.22)]]
+TW_G = [(0.9, -1.3), (2.7, 0.6), (3.6, -1.9)]
+TW_PHI = (0.1, 0.3, 0.5, 0.7, 0.9)
+TW_TAU = (0.0, 0.003, -0.007, 1e-9)
+
+
+def twin_cases(variants):
+    """letter: two IDENTICAL variables (same curvature, start, bounds, gradient, stored
+    steps), so that both reach their bound for exactly the same truncation factor (tie in
+    the ratio test), the bound translated close to zero (rounding of xc + alpha*d visible)"""
+    for v in variants:
+        for ia in range(2):
+            for ib in range(2):
+                for it in range(2):
+                    for isx in range(2):
+                        yield dict(part="twin", var=v, ia=ia, ib=ib, it=it, isx=isx)
+
+
+def twin_inputs(case):
+    v = case["var"]
+    a, b = TW_A[case["ia"]] * (1 + 0.013 * v), TW_B[case["ib"]]
+    h = np.array([a, a, b])
+    tw = TW_T[case["it"]]
+    pts = [np.array([tw, tw, 0.4 - 0.1 * v])]
+    for s1, s2 in TW_STEPS[case["isx"]]:
+        pts.append(pts[-1] + np.array([s1, s1, s2]))
+    pairs = [(q - p_, h * (q - p_)) for p_, q in zip(pts, pts[1:])]
+    mats = refs.build_mats(pairs, 3)
+    B, _ = refs.dense_B(pairs, 3)
+    x = pts[-1].copy()
+    wide_lb, wide_ub = np.full(3, -1e3), np.full(3, 1e3)
+    for gt, g2 in TW_G:
+        g = np.array([gt, gt, g2])
+        xc, _, _ = refs.ref_gcp(x, g, wide_lb, wide_ub, B)
+        xn, _, _ = refs.ref_sub(x, xc, g, wide_lb, wide_ub, B)
+        if not (xn[0] < xc[0] < x[0]):
+            continue
+        for phi in TW_PHI:
+            lbt = xc[0] + (phi + 0.011 * v) * (xn[0] - xc[0])
+            for tau in TW_TAU:
+                x2 = x.copy()
+                x2[:2] += tau - lbt
+                lb = np.array([tau, tau, -1e3])
+                yield x2, g, lb, wide_ub.copy(), mats, B, dict(gl=[gt, g2], phi=phi, tau=tau)
 
 
 def _one(c):
@@ -63,6 +112,22 @@ def _one(c):
 
 def run(case):
     part = case.get("part")
+    if part == "twin":
+        viol, keys, nex, outc = [], [], 0, Counter()
+        for x, g, lb, ub, mats, B, tag in twin_inputs(case):
+            xr, _, _ = refs.ref_gcp(x, g, lb, ub, B)
+            out, nfree = comp.check_sub(x.copy(), g.copy(), lb, ub, comp.fresh_mats(mats), xr)
+            nex += 1
+            # both twins on the bound in the reference answer = a tie in the ratio test
+            xbr, _, _ = refs.ref_sub(x, xr, g, lb, ub, B)
+            tie = bool(abs(xbr[0] - lb[0]) <= 1e-12 and abs(xbr[1] - lb[1]) <= 1e-12)
+            outc["twin_tie" if tie else "twin_no_tie"] += 1
+            if tie:
+                keys.append(f"{core.case_hash(case)}-{tag['gl']}-{tag['phi']}-{tag['tau']}")
+            for s_, d in out:
+                viol.append(V(s_, x=x, g=g, lb=lb, **dict(d, **tag)))
+        return dict(viol=viol[:20], nontrivial=dict(keys=keys), outcomes=dict(outc), n_exec=nex,
+                    stats={"twin_inputs": nex})
     if part == "syn1":
         r = _one(case)
         if r is None:
